@@ -186,7 +186,7 @@ def gen_history(rng, fam):
             ops.append({'op': 'damage', 'task': rng.randrange(ntask),
                         'how': rng.choice(('delete', 'empty', 'truncate',
                                            'truncate', 'nul', 'dir',
-                                           'garbage')),
+                                           'garbage', 'foreign')),
                         'frac': rng.random(),
                         'junk': rng.randrange(1 << 30)})
         else:
@@ -246,6 +246,7 @@ def _run_history(scn, sim, res, root):
     # until something (damage, a faulty write) makes that unknown
     logical = [None for _ in tasks]
     garbage = set()      # tasks whose file was overwritten with junk
+    foreign = set()      # ... or with somebody else's environment
 
     def path_of(i):
         return os.path.join(root, tasks[i]['name'], FILENAME)
@@ -261,6 +262,15 @@ def _run_history(scn, sim, res, root):
             return ('absent', None)
         if data in known_blobs[i]:
             return ('intact', known_blobs[i][data])
+        if i in foreign:
+            try:
+                obj = pickle.loads(data)
+                keys = set(obj.keys())
+            except Exception:   # noqa
+                keys = None
+            if keys is not None and tasks[i]['name'] not in keys and \
+                    all(str(k).startswith('somebody-else-') for k in keys):
+                return ('foreign', sorted(keys))
         if i in garbage and any(data == junk_bytes(op2.get('junk', 0))
                                 for op2 in scn['ops']
                                 if op2.get('how') == 'garbage'):
@@ -350,6 +360,19 @@ def _run_history(scn, sim, res, root):
                     os.unlink(path)
                 if not os.path.isdir(path):
                     os.makedirs(path, exist_ok=True)
+            elif how == 'foreign':
+                # a complete, valid environment file that does not belong
+                # here: empty, or the entry of another task (a directory that
+                # was copied, a task that was renamed)
+                if os.path.isdir(os.path.dirname(path)) and \
+                        not os.path.isdir(path):
+                    other = 'somebody-else-%d' % (op.get('junk', 0) % 7)
+                    dct = {} if op.get('junk', 0) % 3 == 0 else {
+                        other: {'status': status_enum.DONE, 'version': -1,
+                                'output_dir': os.path.dirname(path)}}
+                    with faultfs._REAL_OPEN(path, 'wb') as fil:
+                        pickle.dump(env_mod.Env(dct), fil)
+                    foreign.add(i)
             elif how == 'garbage':
                 if os.path.isdir(os.path.dirname(path)) and \
                         not os.path.isdir(path):
@@ -440,7 +463,9 @@ def _judge_read(scn, res, opno, got, states, unreadable, written, root,
         _viol(res, 'read-result', 'read_env-result-not-a-mapping',
               {'op': opno, 'exception': repr(exc)[:200]})
         return
-    extra = got_keys - names
+    extra = {k for k in got_keys - names
+             if not (str(k).startswith('somebody-else-') and
+                     any(st[0] == 'foreign' for st in states))}
     if extra:
         _viol(res, 'read-result', 'read_env-unknown-task',
               {'op': opno, 'extra': sorted(map(str, extra))})
@@ -471,6 +496,13 @@ def _judge_read(scn, res, opno, got, states, unreadable, written, root,
             # an injected read fault: "not done" is the expected answer (an
             # implementation that retried and got the entry is judged below)
             _fact(res, 'judged:unreadable')
+            continue
+        if state[0] == 'foreign':
+            _fact(res, 'judged:foreign-environment-file')
+            if have:
+                _viol(res, 'not-done-reported-done',
+                      'entry-from-foreign-environment-file',
+                      {'op': opno, 'task': name})
             continue
         if state[0] in ('absent', 'damaged'):
             _fact(res, 'judged:%s' % state[0])
@@ -531,6 +563,10 @@ def _whole_roundtrip(scn, sim, res, opno, op, root):
               {'op': opno, 'exception': repr(exc)[:200]})
         return
     cut = op.get('cut')
+    if not os.path.isfile(path):
+        # to_file returned normally and left no file: the environment is lost
+        _viol(res, 'done-entry-lost', 'to_file-left-no-file', {'op': opno})
+        return
     if cut is not None:
         with faultfs._REAL_OPEN(path, 'rb') as fil:
             data = fil.read()
